@@ -1,5 +1,5 @@
 From Coq Require Import ZArith List Bool.
-From Coba Require Import Common.Sx C12.Model C12.ModelArff C12.ModelArffSparse.
+From Coba Require Import Common.Sx C12.Model C12.ModelArff C12.ModelArffSparse C12.ModelArffAttr.
 Import ListNotations.
 Open Scope Z_scope.
 Definition zss (x : sx) : list (list Z) := map as_zs (as_l x).
@@ -21,5 +21,6 @@ Definition run (x : sx) : sx :=
          | None => Z_ (-1)
          | Some ps => L_ (map (fun kv : list Z * list Z => L_ [match key_value (fst kv) with Some k => Z_ k | None => Z_ (-1) end; of_zs (snd kv)]) ps)
          end
+  | 7 => of_zss (levels_parse (as_zs a))
   | _ => err 99
   end.
